@@ -839,7 +839,7 @@ fn main() {
                 if args.engine_enabled("th_chaos") {
                     th_chaos_managed(&args, &mut rep, prop, sc(150.0, 3000.0), false);
                 }
-                if args.engine_enabled("th_race") && matches!(prop, "C06" | "C07" | "C11") {
+                if args.engine_enabled("th_race") && matches!(prop, "C01" | "C02" | "C06" | "C07" | "C11") {
                     th_race(&args, &mut rep, prop, sc(300.0, 12_000.0), false, prop == "C06");
                 }
                 if args.engine_enabled("th_hammer") {
@@ -857,6 +857,11 @@ fn main() {
                 }
             }
             // status() of the unmanaged pool is the same `Status` and the same promise
+            // lazy creation against lock contention: full-speed rounds only (no schedule point can sit between
+            // a failed try_lock and the decision to create)
+            if prop == "C08" && args.engine_enabled("th_race") {
+                th_race(&args, &mut rep, prop, sc(300.0, 12_000.0), false, false);
+            }
             if prop == "C11" && args.engine_enabled("utl") {
                 utl_random(&args, &mut rep, prop, sc(10_000.0, 300_000.0));
             }
